@@ -146,8 +146,8 @@ TStartTransport ==
 
 TDtlsStarted ==
     /\ Is("dtls_started")
-    /\ sock /\ ~IsDirect
-    /\ C_Start
+    /\ ~IsDirect
+    /\ C_Start /\ cp' = "hsStarted"
     /\ UNCHANGED <<tr, viol>> /\ Consume
 
 TDtlsConnected ==
@@ -332,7 +332,8 @@ Silent ==
        \/ AbortTracked
        \/ L_SawChecking \/ L_Wait \/ L_EnterConn
        \/ C_Role \/ C_HsEnter \/ C_Spawned
-       \/ (C_Start /\ (IsDirect \/ ~sock))
+       \/ (C_Start /\ cp' # "hsStarted")
+       \/ C_SrtpAbort
        \/ C_HsFail
        \/ C_RunLoops \/ C_RunIce \/ C_RunDtls \/ C_RunGrace
        \/ D_Connect \/ D_Close \/ D_SockGone \/ D_PeerAlert \/ D_Timeout
